@@ -5,7 +5,9 @@ import re
 from botocore.exceptions import IncompleteReadError, ReadTimeoutError
 
 from explore import UserExc, obj_bytes
-from fakes3 import InjectedFault
+from fakes3 import InjectedFault, InjectedInterrupt
+
+_FATAL = (InjectedFault, InjectedInterrupt)
 from sched import Deadlock, Livelock
 
 FINAL = ('success', 'failed', 'cancelled')
@@ -21,6 +23,8 @@ def _ti_of_req(e):
     if 'Key' in a:
         if a['Key'] == 'fresh':
             return 99
+        if a['Key'].startswith('chained-'):
+            return 98
         return _ti_of_key(a['Key'])
     return None
 
@@ -56,7 +60,7 @@ class View:
             if f['op'] == 'body-read':
                 ti = _ti_of_key(f.get('key'))
                 out.append({'ti': ti, 'site': 'body', 'exc': f['exc'],
-                            'retryable': not isinstance(f['exc'], InjectedFault)})
+                            'retryable': not isinstance(f['exc'], _FATAL)})
             else:
                 # request fault: find the request with that op and seq
                 ti = None
@@ -64,7 +68,7 @@ class View:
                     if e['op'] == f['op'] and e['seq'] == f['nth'] and e['phase'] == 'begin':
                         ti = e['ti']
                 out.append({'ti': ti, 'site': 'req:%s:%s' % (f['op'], f['when']), 'exc': f['exc'],
-                            'retryable': f['op'] == 'get_object' and not isinstance(f['exc'], InjectedFault)})
+                            'retryable': f['op'] == 'get_object' and not isinstance(f['exc'], _FATAL)})
         # FaultPlan.check and _call both append; de-duplicate by exception identity
         seen, ded = set(), []
         for f in out:
@@ -120,6 +124,10 @@ def judge_C04(v):
         for ti, f in run.futures.items():
             if not f.done():
                 out.append(('future-not-done', v.wit(ti=ti), 'transfer %d not done after shutdown' % ti))
+        for ti, f in run.env.chained:
+            if not f.done():
+                out.append(('future-not-done:chained', v.wit(ti=ti),
+                            'the transfer submitted from on_done of transfer %d is not done after shutdown' % ti))
     return out
 
 
@@ -368,11 +376,17 @@ def judge_C08(v):
         # the run did not finish (C04 reports the hang): a transfer whose on_done never ran although every
         # thread is blocked or idle will never be announced — on_done does not run "exactly once"
         for ti, t in enumerate(v.sc['transfers']):
-            if t['subscribers'] and ti in v.run.futures and not v.events('cb-done', ti) \
-                    and not any(s.get('reentrant') for s in t['subscribers']):
-                out.append(('on-done-never-ran', v.wit(ti=ti, status=v.run.futures[ti]._coordinator.status, failure=repr(v.run.failure)[:200]),
-                            'transfer %d (status %s) was never announced: on_done did not run and result() blocks for ever'
-                            % (ti, v.run.futures[ti]._coordinator.status)))
+            if not t['subscribers'] or any(s.get('reentrant') for s in t['subscribers']) or not v.events('submit', ti):
+                continue
+            ran = {e.get('sub') for e in v.events('cb-done', ti)}
+            missing = [s['id'] for s in t['subscribers'] if s['id'] not in ran]
+            if missing:
+                fut = v.run.futures.get(ti)
+                status = fut._coordinator.status if fut is not None else 'the submitting call never returned'
+                out.append(('on-done-never-ran', v.wit(ti=ti, status=status, subscribers_without_on_done=missing,
+                                                        failure=repr(v.run.failure)[:200]),
+                            'transfer %d (status %s): on_done of subscriber(s) %s never ran and never will (every thread is blocked or idle)'
+                            % (ti, status, missing)))
         return out
     for ti, t in enumerate(v.sc['transfers']):
         oc = v.outcome(ti)
@@ -491,7 +505,7 @@ def judge_C10(v):
                         '%d queued-or-running %s tasks%s, limit %d' % (h, stage, ' tagged ' + tag if tag else '', cap)))
     # streaming destination: offsets strictly increasing
     for ti, t in enumerate(v.sc['transfers']):
-        if t['kind'] == 'download' and t.get('dest') == 'nonseekable':
+        if t['kind'] == 'download' and t.get('dest') in ('nonseekable', 'special'):
             ws = v.events('dest-write-begin', ti)
             pos = 0
             for w in ws:
@@ -531,6 +545,16 @@ def judge_C11(v):
     # meaningful on runs without faults or cancellation
     if high > bound and quiet:
         out.append(('upload-buffers', v.wit(live=high, bound=bound), '%d stream upload buffers alive, bound %d' % (high, bound)))
+    # in any run, also after a failure or a cancel: the part buffers still reachable and not closed when a new
+    # one is created (a skipped part's buffer is dropped with its task; a request thread may still be letting go of one)
+    held = max([e['alive_before'] + 1 for e in v.ev if e['k'] == 'body-created' and e['in_memory'] and 'alive_before' in e] or [0])
+    held_bound = bound + cfg['max_request_concurrency']
+    if held > held_bound:
+        out.append(('upload-buffers-held', v.wit(reachable_unclosed_buffers=held, bound=held_bound),
+                    '%d stream upload buffers reachable and not closed at once (max_in_memory_upload_chunks %d + '
+                    'max_submission_concurrency %d + max_request_concurrency %d = %d)'
+                    % (held, cfg['max_in_memory_upload_chunks'], cfg['max_submission_concurrency'],
+                       cfg['max_request_concurrency'], held_bound)))
     # non-seekable downloads: window of requested parts
     W = cfg['max_in_memory_download_chunks']
     chunk = cfg['multipart_chunksize']
@@ -540,7 +564,7 @@ def judge_C11(v):
             finished.setdefault(b['tag'], b['t'])
     tot_outstanding_high = 0
     for ti, t in enumerate(v.sc['transfers']):
-        if t['kind'] != 'download' or t.get('dest') != 'nonseekable' or t['size'] < cfg['multipart_threshold']:
+        if t['kind'] != 'download' or t.get('dest') not in ('nonseekable', 'special') or t['size'] < cfg['multipart_threshold']:
             continue
         gets = [e for e in v.req_events(ti, 'get_object', 'begin') if 'Range' in e['args']]
         for g in gets:
@@ -639,9 +663,18 @@ def _bytes_wrong(v, ti):
         for uid, up in v.fake.uploads.items():
             if up['key'] == 'k%d' % ti and up.get('complete_problems'):
                 return 'CompleteMultipartUpload: %s' % up['complete_problems'][0]
+            if up['key'] == 'k%d' % ti and t['kind'] == 'upload' and up['parts']:
+                # every part but the last has the effective part size (here: the configured one, the
+                # adjuster's limits are scaled down to 1 byte)
+                chunk = v.sc['cfg']['multipart_chunksize']
+                sizes = [len(up['parts'][n][1]) for n in sorted(up['parts'])]
+                if any(x != chunk for x in sizes[:-1]) or not (0 < sizes[-1] <= chunk):
+                    return 'part sizes %r with multipart_chunksize %d: a part other than the last is not a full part' % (sizes, chunk)
     elif t['kind'] == 'download':
         if t['dest'] == 'path':
             got = v.run.final_files.get('dst%d' % ti)
+        elif t['dest'] == 'special':
+            got = bytes(v.run.specs[ti]['special_stream'].buf)
         else:
             got = bytes(v.run.specs[ti]['fileobj'].buf)
         if got != data:
@@ -666,7 +699,29 @@ def judge_bytes(v):
     return out
 
 
-JUDGES = {'C03': judge_C03, 'C04': judge_C04, 'C05': judge_C05, 'C06': judge_C06, 'C07': judge_C07,
+def judge_C16(v):
+    """Writes to a destination that cannot seek (a stream, a special file given by name): at every
+    instant what was written is a prefix of the object — nothing twice, nothing out of order, whatever
+    was retried — and on success it is the whole object."""
+    out = []
+    for ti, t in enumerate(v.sc['transfers']):
+        if t['kind'] != 'download' or t.get('dest') not in ('nonseekable', 'special'):
+            continue
+        data = v.run.specs[ti]['data']
+        st = v.run.specs[ti].get('special_stream') or v.run.specs[ti]['fileobj']
+        got = bytes(st.buf)
+        if got != data[:len(got)]:
+            out.append(('stream-not-a-prefix:%s' % t['dest'], v.wit(ti=ti, written=len(got), object=len(data)),
+                        'the %d bytes written to the stream of transfer %d are not a prefix of the %d-byte object '
+                        '(a byte was written twice or out of order)' % (len(got), ti, len(data))))
+        oc = v.outcome(ti)
+        if oc and oc[0] == 'ok' and got != data:
+            out.append(('stream-incomplete-on-success:%s' % t['dest'], v.wit(ti=ti, written=len(got), object=len(data)),
+                        'transfer %d succeeded with %d of %d bytes written to the stream' % (ti, len(got), len(data))))
+    return out
+
+
+JUDGES = {'C16': judge_C16, 'C03': judge_C03, 'C04': judge_C04, 'C05': judge_C05, 'C06': judge_C06, 'C07': judge_C07,
           'C08': judge_C08, 'C09': judge_C09, 'C10': judge_C10, 'C11': judge_C11, 'C12': judge_C12,
           'C18': judge_C18}
 
